@@ -17,6 +17,8 @@ pub type Subj = Subject<'static, V, E>;
 pub type BObs = BoxObserver<'static, V, E>;
 pub type Subr = Subscriber<BObs>;
 pub type BSub = BoxSubscription<'static>;
+pub type MultiSub = MultiSubscription<'static>;
+pub type BoxSub = BoxSubscription<'static>;
 pub type CBx = rxrust::ops::box_it::CloneableBoxOp<'static, V, E>;
 pub type Sh<T> = Rc<RefCell<T>>;
 pub fn sh<T>(t: T) -> Sh<T> {
